@@ -14,7 +14,7 @@ RECURSIVE SumExt(_)
 SumExt(xs) == IF xs = <<>> THEN 0 ELSE ExtLenOf(Head(xs)) + SumExt(Tail(xs))
 IsV4(c) == c.net \in {"ipv4", "ip4"}
 LinkLen(c) == CASE c.link = "eth" -> 14 [] c.link = "sll" -> 16 [] OTHER -> 0
-VlanLen(c) == IF c.vlan = 2 THEN 8 ELSE IF c.vlan = 0 THEN 0 ELSE 4
+VlanLen(c) == IF c.vlan \in {2, 4} THEN 8 ELSE IF c.vlan = 0 THEN 0 ELSE 4
 NetLen(c) == IF c.net = "arp" THEN 28 ELSE IF IsV4(c) THEN 20 + c.opts ELSE 40
 ExtLen(c) == IF c.net = "ip4" THEN c.auth * 20 ELSE IF c.net = "ip6" THEN SumExt(c.exts) ELSE 0
 TrLen(c) == CASE c.tr = "udp" -> 8 [] c.tr \in {"tcp", "tcphdr"} -> 20 + c.tcp_opts [] c.tr = "raw" -> 0 [] c.tr = "" -> 0 [] OTHER -> 8
@@ -34,7 +34,7 @@ TrKind(c) == CASE c.tr = "udp" -> "udp" [] c.tr \in {"tcp", "tcphdr"} -> "tcp" [
 TrProto(c) == CASE TrKind(c) = "udp" -> 17 [] TrKind(c) = "tcp" -> 6 [] TrKind(c) = "icmp4" -> 1 [] TrKind(c) = "icmp6" -> 58 [] OTHER -> c.last
 \* layer kinds a strict decoder must report
 Kinds(c) ==
-  (IF c.link = "none" THEN <<>> ELSE <<c.link>>) \o [i \in 1..(IF c.vlan = 2 THEN 2 ELSE IF c.vlan = 0 THEN 0 ELSE 1) |-> "vlan"]
+  (IF c.link = "none" THEN <<>> ELSE <<c.link>>) \o [i \in 1..(IF c.vlan \in {2, 4} THEN 2 ELSE IF c.vlan = 0 THEN 0 ELSE 1) |-> "vlan"]
   \o (IF c.net = "arp" THEN <<"arp">>
       ELSE IF IsV4(c) THEN <<"ipv4">> \o (IF ExtLen(c) > 0 THEN <<"auth">> ELSE <<>>)
       ELSE <<"ipv6">> \o (IF ExtLen(c) > 0 THEN <<"exts">> ELSE <<>>))
